@@ -10,7 +10,7 @@ import numpy as np
 from simcore.util import digest, rng_for
 
 from poolsim import oracles, workload
-from poolsim.simpool import ProcGlobals
+from poolsim.simpool import EntryPollution, ProcGlobals
 
 from quara.objects.qoperation_typical import generate_qoperation
 from quara.simulation import standard_qtomography_simulation as qsim
@@ -59,7 +59,9 @@ def _call(cfg, world):
             sim_setting.seed_data = None
             np.random.seed(cfg["seed_data"] % (2 ** 32))
             arg = None
-        res = qsim.execute_simulation(qt, sim_setting, seed_or_generator=arg, is_computation_time_required=cfg.get("is_computation_time_required", True))
+        targets = {"_generate_empi_dists_and_calc_estimate": qsim._generate_empi_dists_and_calc_estimate.__code__, "_execute_estimation": qsim._execute_estimation.__code__}
+        with EntryPollution(world.get("pollution_inside", []) if sk != "none_global" else [], targets, world.setdefault("_fired", {})):
+            res = qsim.execute_simulation(qt, sim_setting, seed_or_generator=arg, is_computation_time_required=cfg.get("is_computation_time_required", True))
         res.result_index = {"test_setting_index": 0, "sample_index": 0, "case_index": 0}
         return {"ok": True, "raw": res, "result": workload.extract_result(res), "ts": ts, "np_after": digest(list(np.random.get_state()[1][:8]))}
     except Exception as e:
@@ -80,7 +82,12 @@ def _pollute(kind, arg):
 
 
 def gen_world(rng, fault_free):
-    w = {"np_seed": rng.randrange(2 ** 32), "pollution_before_ctor": [], "pollution_after_ctor": []}
+    w = {"np_seed": rng.randrange(2 ** 32), "pollution_before_ctor": [], "pollution_after_ctor": [], "pollution_inside": []}
+    if not fault_free and rng.random() < 0.7:
+        # between repetitions (entry of the k-th repetition / k-th estimation) another user of the global random state acts
+        for _ in range(rng.randint(1, 3)):
+            kind = rng.choice(["draws", "draws", "reseed", "py_reseed"])
+            w["pollution_inside"].append([rng.choice(["_generate_empi_dists_and_calc_estimate", "_execute_estimation"]), rng.randint(1, 4), kind, rng.choice([1, 3, 100]) if kind == "draws" else rng.randrange(5)])
     if not fault_free:
         for key in ("pollution_before_ctor", "pollution_after_ctor"):
             for _ in range(rng.randint(0, 2)):
@@ -120,11 +127,14 @@ def run_record(record, want_record=True):
                 break
             other = _call(cfg, w)
             stats["steps"] += 1
-            fired = len(w.get("pollution_before_ctor", [])) + len(w.get("pollution_after_ctor", []))
+            fired = len(w.get("pollution_before_ctor", [])) + len(w.get("pollution_after_ctor", [])) + sum((w.get("_fired") or {}).get("pollution_inside_run", 0) for _ in [0])
+            if (w.get("_fired") or {}).get("pollution_inside_run"):
+                stats["faults"]["pollution_inside_run"] = stats["faults"].get("pollution_inside_run", 0) + w["_fired"]["pollution_inside_run"]
+            w.pop("_fired", None)
             if fired:
                 stats["faults"]["global_rng_pollution"] = stats["faults"].get("global_rng_pollution", 0) + fired
                 nontrivial = True
-            keys.append(digest([w.get("pollution_before_ctor"), w.get("pollution_after_ctor")]))
+            keys.append(digest([w.get("pollution_before_ctor"), w.get("pollution_after_ctor"), w.get("pollution_inside")]))
             if not other["ok"]:
                 viol.append({"oracle": "H0_parallel_run_fails", "what": f"execute_simulation failed when repeated in another world: {other['exception']}", "detail": {}, "signature": dict(sig, oracle="H0_parallel_run_fails")})
                 break
